@@ -5,7 +5,7 @@ CONSTANTS
   MaxLines = 4
   MaxDepth = 2
   Cfgs <- MCCfgs
-  Pols <- PolsAll
+  Pols <- PolsQuick
 INVARIANTS RedundantDirective InlineLaw Shape OutSane
 PROPERTIES ExitRestoresOrigin Hermetic OutGrows
 CHECK_DEADLOCK FALSE
